@@ -20,8 +20,8 @@ def main(ctx):
         jobs = []
         for k in positions:
             for form in (1, 2, 3, 4, 5):
-                for kind in ('2:00', '1:00'):
-                    if quick and (k + form) % 2 and kind == '2:00':
+                for kind in ('2:00', '1:00', 'aborted'):
+                    if quick and (k + form) % 2 and kind != '1:00':
                         continue
                     jobs.append(dict(fam='IOS', front='do-approve', mode='approve', banners=[dict(at=k, form=form, kind=kind)], timeout_s=2))
         res = S.run_sessions(ctx, jobs)
@@ -67,7 +67,7 @@ def main(ctx):
             if v[4]:
                 failing.append(dict(what='a change or the save lies outside the reload guard', replay=dict(property='C15', case=it), finding=None, key='guard'))
         cov = dict(evaluations=len(jobs) + 1, distinct_nontrivial=len(set(items)),
-                   rule='IOS approve through do-approve; banner kinds {2:00, 1:00} x five forms x every command position between guard and cancellation; '
+                   rule='IOS approve through do-approve; banner kinds {2:00, 1:00, aborted} x five forms x every command position between guard and cancellation; '
                         'distinct by received class sequence',
                    traces_validated_against_impl=len(jobs) + 1, positions=len(positions),
                    samples=[dict(banner=jobs[0]['banners'][0], received=[e[1] for e in P.observe('IOS', res[0], base['pairs'])])] if jobs else [])
